@@ -112,6 +112,8 @@ CLAIMED.update({
             "TLA+ spec + TLC exhaustive model checking with crash/restart; simulated behaviours replayed on the real mirror; TLC trace validation of operation-level traces"),
 })
 
+CLAIMED.update({'C12': ('Metadata, MCMetadata, MetadataTrace, TraceBase', "E1: TLC exhausts every ascending write history over indices 0..9 in files of 3 indices (calls of <= 3 samples as single / dict-of-arrays / list-of-dicts, the dict form's distribution rule both ways, duplicate attempts incl. partially stored ones); in every reachable state every inclusive range with both fill methods, the bounds and the latest sample, computed file by file, equal the declarative function of what was written (ReadExact, FfillExact, BoundsExact, LatestIsMax, WriteOnce, NothingElse, PlacementExact). E2: TLC-simulated behaviours are executed on DigitalMetadataWriter/Reader at five rate/cadence realisations of the model partition; stored indices and their files are compared with TLC's state after every write. E3: real-scale rates, cadences and value shapes; every write (request, result, raw h5py content of the channel afterwards) and every read / read_flatdict / read_latest / get_bounds / get_fields answer is one event decided by TLC (C12-* clauses).", "Trusted: TLC, the projection (raw h5py walk of the channel; normalisation of leaf values - numbers by numeric value, text by characters, arrays by shape and elements - hashed to canonical ids; flattening of nested dicts to '/'-paths), exact big-integer computation of the file partition handed to the specification (itself checked on limbs by PlacementTrace under C13). Sample indices are rebased per scenario (span < 2^31). read_dataframe is not exercised; read_flatdict only on histories whose leaves are scalars/strings.", 'TLA+ spec + TLC exhaustive model checking of the metadata channel model; TLC-simulated behaviours replayed on the real writer/reader; TLC trace validation of recorded histories'), 'C13': ('Placement, MCMdPlacement, PlacementTrace, BigNat, Metadata, MetadataTrace', "E1: on a small scope (all n<=12, d<=7, cadences <=6, k<=100) TLC checks that the writer's and the reader's way to the file are the same function in exact integers, that the file second T is the unique multiple of the cadence with T*n <= k*d < (T+fc)*n, the subdirectory holds the file, and ceil(T*n/d) is the first index of file T; MCMetadata checks PlacementExact over all write histories. E3: for random (n, d, file cadence, subdirectory cadence) and consecutive file numbers j in 1980-2100 the indices ceil(j*fc*n/d)+{-1,0,+1} are written singly; the path the writer chose (raw h5py), whether read(k,k) returns the sample and whether read_latest returns it are one record each with all magnitudes as base-10^4 limbs; TLC decides every record with exact arithmetic (C13-* clauses of PlacementTrace), and the C13-* clauses of MetadataTrace judge the files of E2/E3 metadata histories against the specification's partition.", 'Trusted: TLC, BigNat.tla, the limb encoder, raw h5py listing of group names. Full-magnitude inputs are decided on executed cases (biased to boundaries that fall exactly on an index at non-integer rates), not proved for all inputs.', 'TLA+ placement theorems model-checked on a small scope + TLC trace validation of placement records with exact limb arithmetic'), 'C20': ('Metadata, MCMetadata, MetadataTrace, TraceBase', 'E1: TLC exhausts the interleavings of metadata writes, RF writes, construction of metadata and RF readers at any time and every observation by every reader (AllReadersAgree: the answer is the function of what has been written so far whoever asks; ObservationsReadOnly: no observation or reader construction changes the tree token). E2/E3: the same interleavings at call granularity on a real tree (RF channel + its metadata channel) with one old and one new reader of each kind; the tree is hashed recursively (names, sizes, mtimes, bytes) before and after every call - read, read_flatdict, read_latest, get_bounds, get_fields, both reader constructors, DigitalRFReader.get_bounds / read / get_continuous_blocks / get_properties(sample) / read_metadata, six lsdrf variants - and TLC compares the tokens and every visibility answer.', "Trusted: TLC, the projection, sha1 of the tree. Call granularity only (concurrent processes are C09's subject). Not claimed (Appendix C): get_fields() of a reader created before the first write. The answers of RF reader calls and listings are not judged here (C08/C09/C14), only their effect on the tree.", 'TLA+ spec + TLC exhaustive model checking; TLC-simulated behaviours replayed on a real tree; TLC trace validation with tree-hash tokens'), 'C14': ('Listing, MCListing, ListingTrace, TraceBase', 'Listing.tla is a functional specification with MUST and MAY sets over abstract trees (nested channels, property-file kinds incl. legacy metadata.h5, timestamped subdirectories some empty, data / tmp. / wrong-extension / stray files): Must <= result <= May, per-channel order, property files by their own flags, forward fill = latest metadata file before start. E1: TLC checks on a bounded universe of trees x options that a reference walk satisfies the spec, reverse changes only the order, the window is monotone, the listing is a subset of finalized files, forward fill adds at most one file per metadata channel; witnesses separate the known defect shapes. E3: systematic and random time-consistent trees are materialised on tmpfs and listed with lsdrf / ilsdrf under every include-flag combination, recursive / reverse and windows on, just before and just after each file and subdirectory time, incl. subdirectories that vanish during the listing; TLC decides every recorded call.', 'Trusted: TLC, the tree materialiser and the mapping of returned paths to file ids. Open choices the property leaves (DESIGN section 6) are in the MAY set: the forward-fill file when a metadata file sits exactly at start, mixed RF+metadata legacy channels, order among equal timestamps. Listing a timestamped subdirectory directly and invalid calendar dates in subdirectory names are not exercised.', 'TLA+ functional spec with MUST/MAY sets + TLC model checking of its theorems on a bounded tree universe; TLC trace validation of real listings of generated trees'), 'C15': ('EventFilter, Listing, MCListing, ListingTrace, TraceBase', 'Deliver(ev, flags, window) is defined in EventFilter.tla from Listing!Listable (finalizing rename tmp.x -> x = creation of x; rename of a tracked file to a non-matching name = deletion; directory events and tmp. paths = nothing). E1: TLC checks Deliver against the listing of one-path trees for the whole descriptor grammar. E3: real watchdog event objects of every kind over the grammar of valid and near-miss paths (43 descriptors, all ordered pairs for moves) x include-flag combinations x windows at and around the file time go through the real DigitalRFEventHandler.dispatch with recording on_* methods; each path is also put to the real lsdrf; TLC judges every dispatch (exhaustive product in thorough, sampled in quick).', "Trusted: TLC, the recording handler subclass, construction of watchdog event objects. Deliberately unconstrained (the property does not define them): a move whose two ends both match but lie on different sides of the time window; legacy metadata.h5 with exactly one property flag on. Fixed parts of names are lower case and files at the format's depth, as the property stipulates.", 'TLA+ function Deliver defined from the listing spec + TLC model checking; TLC trace validation of real dispatches, exhaustive over a bounded path grammar'), 'C18': ('Transfer, MCTransfer, TransferTrace, Listing, TraceBase', "Transfer.tla models cp / mv / ln as dst' = dst + relocated ListSet(src, opts), src unchanged (cp, ln) or reduced by exactly that set (mv), links sharing content. E1: TLC explores command sequences on a small universe. E3: real digital_rf.drf_command.main([...]) runs on materialised trees (some recorded by the real RF and metadata writers) with channel lists incl. the comma form, --only, -R, time windows in several notations, include flags, hard and symbolic links; the transferred set is compared with the real listing of the same options and with Listing.tla, byte identity / shared inode / link target and the source afterwards are projected, and DigitalRFReader / DigitalMetadataReader on the destination are compared with the source for the transferred period; TLC judges every command.", 'Trusted: TLC, sha1 / inode projection of both trees. A difference that exists only against Listing.tla but not against the real listing with the same options is an inherited listing finding and is reported under C14, not C18 (clauses C14-inherited-by-transfer:*).', 'TLA+ spec + TLC model checking; TLC trace validation of real cp/mv/ln commands on generated trees')})
+
 PENDING_REASON = "check not built yet in this round; the property is planned to be decided by the TLA+ module named in DESIGN.md section 5"
 
 
